@@ -34,6 +34,28 @@ OPS = [(r" == ", " != "), (r" != ", " == "), (r" < ", " <= "), (r" <= ", " < "),
        (r"\b250 \* ", "251 * "), (r"\b16 \* ", "15 * "), (r"!(\w)", r"\1"), (r"\bdefer ", ""), (r"(\w+)\.Lock\(\)", r"\1.TryLock()")]
 
 
+# second operator set (--set 2): delete a call statement, force a condition
+OPS2 = [(r"^(\s*)[\w\.\[\]]+\([^{}]*\)\s*$", r"\1"), (r"^(\s*)(?:} else )?if (?:[^;{]*; )?(.+) \{\s*$", "FORCE-TRUE"), (r"^(\s*)(?:} else )?if (?:[^;{]*; )?(.+) \{\s*$", "FORCE-FALSE")]
+
+
+def mutants2(path):
+    lines = open(path).read().split("\n")
+    out = []
+    for n, ln in enumerate(lines):
+        st = ln.strip()
+        if not st or st.startswith("//") or st.startswith("defer") and False:
+            continue
+        if re.match(r"^\s*[\w\.\[\]]+\([^{}]*\)\s*$", ln) and not st.startswith(("return", "panic", "go ", "defer ")):
+            out.append((n + 1, "delete-call", st[:90], ""))
+        m = re.match(r"^(\s*)((?:} else )?if )((?:[^;{]*; )?)(.+) \{\s*$", ln)
+        if m and "err != nil" not in ln and "err == nil" not in ln:
+            for val in ("true", "false"):
+                pre = m.group(3)
+                cond = "(%s) || true" % m.group(4) if val == "true" else "(%s) && false" % m.group(4)
+                out.append((n + 1, "force-" + val, st[:90], "%s%s%s%s {" % (m.group(1), m.group(2), pre, cond)))
+    return out
+
+
 def mutants(path):
     lines = open(path).read().split("\n")
     out = []
@@ -93,7 +115,7 @@ def main():
     jobs = int(sys.argv[sys.argv.index("--jobs") + 1]) if "--jobs" in sys.argv else 4
     limit = int(sys.argv[sys.argv.index("--limit") + 1]) if "--limit" in sys.argv else None
     only = int(sys.argv[sys.argv.index("--only-line") + 1]) if "--only-line" in sys.argv else None
-    ms = mutants(os.path.join(REPO, rel))
+    ms = (mutants2 if "--set" in sys.argv and sys.argv[sys.argv.index("--set") + 1] == "2" else mutants)(os.path.join(REPO, rel))
     if only:
         ms = [m for m in ms if m[0] == only]
     if limit:
@@ -106,7 +128,8 @@ def main():
             res.append(r)
             print("%-9s line %4d %-14s %s %s" % (r["status"], r["line"], r["op"], r.get("by", ""), r["text"]), flush=True)
     os.makedirs(os.path.join(VERIF, "coverage"), exist_ok=True)
-    json.dump(res, open(os.path.join(VERIF, "coverage", "mutants-" + rel.replace("/", "_") + ".json"), "w"), indent=1)
+    suffix = "-set2" if "--set" in sys.argv else ""
+    json.dump(res, open(os.path.join(VERIF, "coverage", "mutants-" + rel.replace("/", "_") + suffix + ".json"), "w"), indent=1)
     n = {k: sum(1 for r in res if r["status"] == k) for k in ("killed", "SURVIVED", "nocompile", "infra")}
     print("SUMMARY %s: %s" % (rel, n))
 
